@@ -118,6 +118,7 @@ class Contract:
         self.merge = merge
         self.kf_region = kf_region      # known-finding region (spec expr over params): ensures hold outside it
         self.kf_id = kf_id
+        self.uses = []                  # lemma instances assumed at exit: dict(fact=<spec expr>, by=[lemma contract quals proved elsewhere])
         self.assumes = []               # tree-shape preconditions taken from the property's quantifier domain (e.g. 'attribute values
                                         # have the shapes parsers store'): assumed at entry, NOT checked at call sites, listed in evidence
         self.defines = []               # definitional namings: `result == name(args)` assumed at call sites only (name is the
@@ -563,6 +564,9 @@ class Engine:
             if cond and cond.startswith('iff:'):
                 g = self.spec_bool(cond[4:], st)
                 self.oblige_raw(st, 'must-raise', z3.Not(g), f'returns normally although {a} is required when: {cond[4:]}')
+        for u in c.uses:
+            # explicit use of a lemma proved separately (base + step; induction over the naturals is the meta-rule)
+            st.pc.append(self.spec_bool(u['fact'], st))
         region = None
         if c.kf_region:
             es = st.copy()
